@@ -381,11 +381,12 @@ def run_deletes(w, state0, plan):
         def deleted_now():
             return sorted(mid(o) for o in list(cache.objects) if isinstance(o, tuple(w.classes)) and o._status_ in DEL)
         for st in plan:
-            before = session_snapshot(w, cache)
             err = None; target_missing = False
+            if st[0] == 'obj': o = get(st[1])        # loading the target is a query: Pony flushes pending changes first
+            else: flush()                             # so does the SELECT of a query delete
+            before = session_snapshot(w, cache)
             try:
                 if st[0] == 'obj':
-                    o = get(st[1])
                     if o is None: target_missing = True
                     else: o.delete()
                 else:
